@@ -163,6 +163,16 @@ class HelperOps:
             b = self.real_shapes(g) if r.random() < 0.7 else L.fzero
             if r.random() < 0.1:
                 a = L.fzero
+            if r.random() < 0.15:
+                # one part just below a power of two (all-ones mantissa, usually longer than the working precision), the other a
+                # given number of binary orders below it: |z| crosses 2^m exactly when the small part exceeds about sqrt(2 * big),
+                # i.e. for gaps up to half the mantissa length -- where "the small part is negligible" shortcuts go wrong
+                k = r.choice([8, 30, 53, 54, 64, 100, 200, r.randint(2, 400)])
+                e = r.randint(-300, 300)
+                big = L.from_man_exp(((1 << k) - r.choice([1, 1, 1, 2, 3])) * r.choice([1, -1]), e)
+                gap = r.choice([1, 2, k // 2 - 1, k // 2, k // 2 + 1, k // 2 + 2, k - 1, k, k + 3, r.randint(1, k + 8)])
+                sm = L.from_man_exp(r.choice([1, 1, 3, 5, r.getrandbits(20) | 1]) * r.choice([1, -1]), e + k - gap - 1)
+                a, b = (big, sm) if r.random() < 0.5 else (sm, big)
             return "c", mp.make_mpc((a, b)), [enc_mpf(a), enc_mpf(b)]
         if kind == "i":
             n = r.choice([0, 1, -1, 2, -2, 3, 255, -256, 2 ** 64, -(2 ** 64) + 1,
